@@ -157,6 +157,7 @@ CHECKS = {
                  "undelivered items, or a waiter followed a cancelled waiter; distinct = distinct plan JSON; each plan runs R times"),
         "assumptions": ["testing/synctest fake clock", "sk.RecStream timestamps", "rapid v1.3.0; go1.26.8"],
         "jobs": [{"pkg": "c11batch", "kinds": ["batch"], "scale_thorough": 10, "shards_thorough": 16, "replay_reps": 30},
+                 {"pkg": "c11old", "kinds": ["batch-old-timers"], "scale_thorough": 4, "shards_thorough": 4},
                  {"pkg": "c11batch", "race": True, "kinds": ["batch"], "scale_quick": 0.1, "scale_thorough": 2, "shards_thorough": 4, "replay_reps": 20}],
     },
     "C10": {
